@@ -17,7 +17,7 @@ MANIFEST = {
                  "integer cursor model",
     "text": "Every in-range sequence over {read(n), read(), seek(k), seek(d,1), tell, len} to depth 3 (thorough 4) on one "
             "handle and depth 2 (3) interleaved over two handles, without state merging, plus a BFS closure over the model "
-            "states (position, offsets-known, end-reached, last op) at any depth, for 16 format fixtures (incl. a DCD without unit cell, a TRR with forces and no velocities, a DTR stack of two time-overlapping frame sets, a DCD whose header frame count disagrees with the file, and a 10-atom mdcrd) with and without "
+            "states (position, offsets-known, end-reached, last op) at any depth, for 17 format fixtures (incl. a TRR above 1 MiB, a DCD without unit cell, a TRR with forces and no velocities, a DTR stack of two time-overlapping frame sets, a DCD whose header frame count disagrees with the file, and a 10-atom mdcrd) with and without "
             "atom_indices; every step is executed on the real object and compared with the model and with the frames of a "
             "full read. Right level: the property is a statement about all histories of a tiny state machine.",
     "note": "Bounded: N=5 frames, 4 (xtc: 4 and 12) atoms; out-of-range operations are not issued; the full read is the "
@@ -28,13 +28,13 @@ MANIFEST = {
 from vlib import explore
 
 N = 5
-FORMATS = ["h5", "xtc", "xtc12", "trr", "trrforces", "dcd", "dcdhdr", "dcdnocell", "nc", "mdcrd", "mdcrd10", "xyz", "lammpstrj", "dtr", "stk", "arc"]
+FORMATS = ["h5", "xtc", "xtc12", "trr", "trrbig", "trrforces", "dcd", "dcdhdr", "dcdnocell", "nc", "mdcrd", "mdcrd10", "xyz", "lammpstrj", "dtr", "stk", "arc"]
 # stk: two DTR frame sets overlapping in time (a restart from a checkpoint): times 1,3,5 and 5,7,9 -- the stack keeps
 # 1,3 of the first and all of the second, the dropped frame of the first set carries other coordinates.
 # dcdhdr: a DCD whose header frame count (3) disagrees with the file (5 frames) -- an interrupted / appended run;
 # mdtraj documents that it then goes by the file size.  mdcrd10: 10 atoms = exactly three full 10-field lines per frame.
-NATOMS = {"xtc12": 12, "mdcrd10": 10}
-EXT = {"xtc12": "xtc", "mdcrd10": "mdcrd", "dcdhdr": "dcd", "dcdnocell": "dcd", "trrforces": "trr"}
+NATOMS = {"xtc12": 12, "mdcrd10": 10, "trrbig": 20000}     # trrbig: a file above 1 MiB (buffering strategies change with size)
+EXT = {"xtc12": "xtc", "mdcrd10": "mdcrd", "dcdhdr": "dcd", "dcdnocell": "dcd", "trrforces": "trr", "trrbig": "trr"}
 # dcdnocell: a DCD written without unit cell (no extra block per frame); trrforces: a TRR whose frames carry forces but no
 # velocities (GROMACS nstfout > 0, nstvout = 0) -- frame skipping must agree with frame reading for these layouts too
 NO_LEN = {"mdcrd", "mdcrd10", "lammpstrj", "arc"}   # __len__ raises NotImplementedError: "len, where offered"
